@@ -146,116 +146,142 @@ def encode (c : CDerived) (s : Nat) : Option (List Bool) :=
   let sz := c.si.getD s 0
   if sz = 0 then none else some (codeBits (c.co.getD s 0) sz)
 
-/-! ### `jpeg_gen_optimal_table` (Annex K.2 as coded) -/
+/-! ### `jpeg_gen_optimal_table` (Annex K.2 as coded)
 
-structure GenState where
-  freq : Array Nat
-  codesize : Array Nat
-  others : Array Int
-deriving Repr
+The C function works on three parallel arrays indexed by *slot* (position in the compacted
+list of non-zero frequencies): `freq[]`, `codesize[]` and the chain links `others[]`.
+A live tree of the forest is a slot whose `freq` entry has not been overwritten with the
+sentinel 1000000001; its members are the slots on the `others[]` chain starting there.
+The model keeps exactly that information as a list of live trees in ascending slot order:
+`w` = the `freq` entry, `idx` = the slot, `mem` = the chain, each member with its `codesize`.
+Merging `c1` and `c2` appends `c2`'s chain to `c1`'s and increments every `codesize` on both,
+stores the sum in `c1`'s slot and kills `c2`'s slot. -/
 
-/-- find the two smallest frequencies: returns `(c1, c2)` (as `Int`, `-1` = none) -/
-def findTwo (freq : Array Nat) (n : Nat) : Int × Int := Id.run do
-  let mut c1 : Int := -1
-  let mut c2 : Int := -1
-  let mut v := 1000000000
-  let mut v2 := 1000000000
-  for i in [0:n] do
-    let f := freq.getD i 0
-    if f ≤ v2 then
-      if f ≤ v then
-        c2 := c1; v2 := v; v := f; c1 := i
-      else
-        v2 := f; c2 := i
-  return (c1, c2)
+structure Tree where
+  w : Nat
+  idx : Nat
+  mem : List (Nat × Nat)
+deriving Repr, DecidableEq
 
-/-- walk the chain starting at `c`, incrementing codesize; returns the last element -/
-def bumpChain : Nat → Nat → Array Nat → Array Int → (Nat × Array Nat)
-  | 0, c, cs, _ => (c, cs)
-  | fuel + 1, c, cs, others =>
-    let cs := cs.modify c (· + 1)
-    let nx := others.getD c (-1)
-    if nx ≥ 0 then bumpChain fuel nx.toNat cs others else (c, cs)
+def FREQ_LIMIT : Nat := 1000000000
 
-def mergeLoop : Nat → Nat → GenState → GenState
-  | 0, _, st => st
-  | fuel + 1, n, st =>
-    let (c1, c2) := findTwo st.freq n
-    if c2 < 0 then st else
-    let c1 := c1.toNat; let c2 := c2.toNat
-    let freq := st.freq.modify c1 (· + st.freq.getD c2 0)
-    let freq := freq.setIfInBounds c2 1000000001
-    let (last1, cs) := bumpChain 300 c1 st.codesize st.others
-    let others := st.others.setIfInBounds last1 (c2 : Int)
-    let (_, cs) := bumpChain 300 c2 cs others
-    mergeLoop fuel n ⟨freq, cs, others⟩
+/-- state of the scan for the two smallest frequencies: `v`, `c1`, `v2`, `c2` of the C code -/
+structure Scan where
+  v : Nat
+  c1 : Option Tree
+  v2 : Nat
+  c2 : Option Tree
 
-/-- the length-limiting loop: for `i` from 32 down to 17, while `bits[i] > 0` move
-symbols up.  `bits` entries are `int` counters (≤ 257, no wrap-around). -/
-def limitInner : Nat → Nat → Array Nat → Array Nat
-  | 0, _, bits => bits
-  | fuel + 1, i, bits =>
-    if bits.getD i 0 > 0 then
-      let j := Id.run do
-        let mut j := i - 2
-        for _ in [0:40] do
-          if bits.getD j 0 == 0 && j > 0 then j := j - 1
-        return j
-      let bits := bits.modify i (· - 2)
-      let bits := bits.modify (i - 1) (· + 1)
-      let bits := bits.modify (j + 1) (· + 2)
-      let bits := bits.modify j (· - 1)
-      limitInner fuel i bits
-    else bits
+/-- one iteration of `for (i = 0; i < num_nz_symbols; i++)`: ties go to the later slot (`<=`) -/
+def scanStep (s : Scan) (t : Tree) : Scan :=
+  if t.w ≤ s.v2 then
+    if t.w ≤ s.v then ⟨t.w, some t, s.v, s.c1⟩ else ⟨s.v, s.c1, t.w, some t⟩
+  else s
 
-def limitLoop (bits : Array Nat) : Array Nat := Id.run do
-  let mut b := bits
-  for k in [0:16] do
-    b := limitInner 300 (32 - k) b
-  return b
+def findTwo (ts : List Tree) : Scan := ts.foldl scanStep ⟨FREQ_LIMIT, none, FREQ_LIMIT, none⟩
+
+def bump (m : List (Nat × Nat)) : List (Nat × Nat) := m.map fun p => (p.1, p.2 + 1)
+
+def mergeTrees (a b : Tree) : Tree := ⟨a.w + b.w, a.idx, bump (a.mem ++ b.mem)⟩
+
+/-- one pass of the `for (;;)` loop; `none` = `c2 < 0` (everything merged) -/
+def mergeStep (ts : List Tree) : Option (List Tree) :=
+  let s := findTwo ts
+  match s.c1, s.c2 with
+  | some a, some b => some ((ts.erase b).map fun t => if t.idx = a.idx then mergeTrees a b else t)
+  | _, _ => none
+
+def mergeAll : Nat → List Tree → List Tree
+  | 0, ts => ts
+  | f + 1, ts => match mergeStep ts with
+    | some ts' => mergeAll f ts'
+    | none => ts
+
+/-- the forest before the first merge: slot `k` holds the `k`-th non-zero frequency -/
+def initForest : List Nat → Nat → List Tree
+  | [], _ => []
+  | w :: ws, k => ⟨w, k, [(k, 0)]⟩ :: initForest ws (k + 1)
+
+/-- `codesize[k]` after the merge loop -/
+def csOf (ts : List Tree) (k : Nat) : Nat :=
+  match (ts.flatMap (·.mem)).lookup k with
+  | some d => d
+  | none => 0
+
+/-- `bits[]` / `bit_pos[]` as total functions (wrapped, so that compiled code builds each table once) -/
+structure Bits where
+  f : Nat → Nat
+
+def Bits.upd (b : Bits) (i v : Nat) : Bits := ⟨fun j => if j = i then v else b.f j⟩
+
+/-- `while (bits[j] == 0) j--;` started at `j`; the model stops at 0 -/
+def findJ : Nat → Bits → Nat
+  | 0, _ => 0
+  | j + 1, b => if b.f (j + 1) = 0 then findJ j b else j + 1
+
+/-- `while (bits[i] > 0) { ... }` of the length-limiting step (at most `fuel` iterations) -/
+def limitAt (i : Nat) : Nat → Bits → Bits
+  | 0, b => b
+  | f + 1, b =>
+    if b.f i > 0 then
+      let j := findJ (i - 2) b
+      let b := b.upd i (b.f i - 2)
+      let b := b.upd (i - 1) (b.f (i - 1) + 1)
+      let b := b.upd (j + 1) (b.f (j + 1) + 2)
+      let b := b.upd j (b.f j - 1)
+      limitAt i f b
+    else b
+
+/-- `for (i = MAX_CLEN; i > 16; i--)` -/
+def limitAll (b : Bits) : Bits :=
+  (List.range 16).foldl (fun b k => limitAt (32 - k) (b.f (32 - k)) b) b
+
+/-- `bit_pos[l]`: number of slots with a code length in `1 .. l-1` -/
+def bitPos (b : Bits) : Bits := ⟨fun l => (((List.range l).drop 1).map b.f).sum⟩
+
+/-- the loop that fills `huffval[]`: slot `k` goes to `bit_pos[codesize[k]]++` -/
+def placeVals (cs nz : List Nat) (m : Nat) (bp : Bits) : Array Nat :=
+  ((List.range m).foldl (fun (st : Array Nat × Bits) k =>
+      let c := cs.getD k 0
+      (st.1.setIfInBounds (st.2.f c) (nz.getD k 0 % 256), st.2.upd c (st.2.f c + 1)))
+    (Array.replicate 256 0, bp)).1
 
 inductive GenResult where
   | ok (t : Tbl)
   | clenOverflow
 deriving Repr, DecidableEq
 
+/-- `freq[]` as the function sees it: 257 entries, entry 256 forced to 1 -/
+def freqIn (freq0 : List Nat) : List Nat := ((freq0 ++ List.replicate (257 - freq0.length) 0).take 256) ++ [1]
+
+/-- `nz_index[]`: the symbols with a non-zero count, ascending; the pseudo-symbol 256 is last -/
+def nzIndex (freq1 : List Nat) : List Nat := (List.range 257).filter (fun i => freq1.getD i 0 ≠ 0)
+
+/-- `codesize[0 .. num_nz_symbols-1]` after the merge loop -/
+def genCs (freq0 : List Nat) : List Nat :=
+  (List.range (nzIndex (freqIn freq0)).length).map
+    (csOf (mergeAll 300 (initForest ((nzIndex (freqIn freq0)).map ((freqIn freq0).getD · 0)) 0)))
+
+/-- `bits[]` as counted from `codesize[]` -/
+def b0Of (cs : List Nat) : Bits := ⟨fun l => ((List.range 33).map (fun l => cs.count l)).getD l 0⟩
+
+/-- `bits[]` after the length-limiting loop and the removal of the pseudo-symbol's count -/
+def b3Of (cs : List Nat) : Bits :=
+  let b2 := limitAll (b0Of cs)
+  b2.upd (findJ 16 b2) (b2.f (findJ 16 b2) - 1)
+
+/-- `htbl->bits[0..16]`, narrowed to UINT8 on copy-out -/
+def genBits (cs : List Nat) : List Nat :=
+  let b3 := b3Of cs
+  (List.range 17).map (fun l => b3.f l % 256)
+
 /-- `jpeg_gen_optimal_table`.  `freq` has 257 entries (entry 256 is overwritten with 1).
-(Counters are `int` since the repair of D4, DESIGN section 7.) -/
-def genOptimalTable (freq0 : List Nat) : GenResult := Id.run do
-  let freq1 := (freq0 ++ List.replicate (257 - freq0.length) 0).toArray.setIfInBounds 256 1
-  -- group nonzero frequencies
-  let mut nz : Array Nat := #[]
-  let mut fr : Array Nat := #[]
-  for i in [0:257] do
-    if freq1.getD i 0 ≠ 0 then
-      nz := nz.push i
-      fr := fr.push (freq1.getD i 0)
-  let n := nz.size
-  let st := mergeLoop 300 n ⟨fr, Array.replicate 257 0, Array.replicate 257 (-1)⟩
-  -- count symbols per code length
-  let mut bits : Array Nat := Array.replicate 33 0
-  for i in [0:n] do
-    let cs := st.codesize.getD i 0
-    if cs > 32 then return .clenOverflow
-    bits := bits.modify cs (· + 1)
-  let mut bitpos : Array Nat := Array.replicate 33 0
-  let mut p := 0
-  for i in [1:33] do
-    bitpos := bitpos.setIfInBounds i p
-    p := p + bits.getD i 0
-  let bits2 := limitLoop bits
-  -- remove the pseudo-symbol from the largest code length in use
-  let mut i := 16
-  for _ in [0:16] do
-    if bits2.getD i 0 == 0 && i > 0 then i := i - 1
-  let bits3 := (bits2.modify i (· - 1)).map (· % 256)   -- narrowed to UINT8 on copy-out
-  let mut hv : Array Nat := Array.replicate 256 0
-  let mut bp := bitpos
-  for k in [0:n - 1] do
-    let cs := st.codesize.getD k 0
-    hv := hv.setIfInBounds (bp.getD cs 0) (nz.getD k 0 % 256)
-    bp := bp.modify cs (· + 1)
-  let total := (bits3.toList.take 17).foldl (· + ·) 0 - bits3.getD 0 0
-  return .ok ⟨bits3.toList.take 17, hv.toList.take total⟩
+(Counters are `int` since the repair of D4, DESIGN I.7.) -/
+def genOptimalTable (freq0 : List Nat) : GenResult :=
+  let cs := genCs freq0
+  if cs.any (· > 32) then .clenOverflow else
+  let nz := nzIndex (freqIn freq0)
+  let bits := genBits cs
+  .ok ⟨bits, (placeVals cs nz (nz.length - 1) (bitPos (b0Of cs))).toList.take (bits.drop 1).sum⟩
 
 end LJT.Huff
